@@ -57,6 +57,17 @@ theorem roundtrip_builtin (bug : Bool) (xs : List UInt8) :
     decompress Tw.Gen.Huffman.table (compress Tw.Gen.Huffman.table bug xs) xs.length = .ok xs :=
   decompress_compress _ wellFormed_table bug xs _ (Nat.le_refl _)
 
+/-- The `Vec` API (`libtw2_huffman::decompress(&compress(xs))`, which reserves `8 * input.len()`
+bytes and turns both errors into `InvalidInput`) returns the original for every input. -/
+theorem roundtrip_vec (t : Table) (h : WellFormed t) (bug : Bool) (xs : List UInt8) :
+    decompressVec t (compress t bug xs) = some xs := decompressVec_compress t h bug xs
+
+/-- `InvalidInput` from the `Vec` API means exactly: the decoded bytes do not fit into `8 * len`
+(a runaway decompression); there is no other failure. -/
+theorem decompressVec_invalid_iff (t : Table) (h : WellFormed t) (input : List UInt8) :
+    decompressVec t input = none ↔ decompress t input (8 * input.length) = .capacity :=
+  decompressVec_none_iff t h input
+
 /-! ## (2) the predicted length is exact -/
 
 theorem compressedLen_exact (t : Table) (xs : List UInt8) :
@@ -68,6 +79,13 @@ theorem compressedLenBug_exact (t : Table) (xs : List UInt8) :
 theorem compressedLen_differ_by_at_most_one (t : Table) (xs : List UInt8) :
     compressedLen t xs ≤ compressedLenBug t xs ∧ compressedLenBug t xs ≤ compressedLen t xs + 1 :=
   compressedLen_le_bug t xs
+
+/-- the reference-compatible form is the compact form plus one zero byte exactly when the bit stream
+fills its last byte -/
+theorem compress_bug_is_compress_plus_zero (t : Table) (xs : List UInt8) :
+    compress t true xs =
+      compress t false xs ++ (if (compress t false xs).length * 8 = compressedBitLen t xs then [0] else []) :=
+  compress_bug_eq t xs
 
 /-- compression into a buffer succeeds exactly when the predicted length fits -/
 theorem compressInto_iff (t : Table) (xs : List UInt8) (cap : Nat) :
